@@ -81,18 +81,37 @@ class DictLit(Val):
 
 
 class ScanEval(FoldEval):
-    def __init__(self, prog, module, nd):
+    def __init__(self, prog, module, nd, pattern=None):
         super().__init__(prog, module)
         self.nd = nd              # 0..3 exact, 4 = "four or more"
+        self.pattern = pattern    # None: order of digits and letters unknown; else a 16-character string of 'd' / 'l'
         self.hex_of = {}
+
+    def all_scan(self):
+        """the characters of the hex string in order (only when a concrete digit/letter pattern is being tried)"""
+        if self.pattern is None:
+            raise Unsupported('the hex string is used without selecting digits or letters')
+        out, di, li = [], 0, 0
+        for c in self.pattern:
+            if c == 'd':
+                out.append(CharDigit(V(f'hd{di}')))
+                di += 1
+            else:
+                out.append(HexLetter(li))
+                li += 1
+        return out
 
     # ---- the two scans
     def digit_scan(self, elem):
+        if self.pattern is not None:
+            return Items([elem(CharDigit(V(f'hd{k}'))) for k in range(self.pattern.count('d'))])
         known = min(self.nd, 4)
         items = [elem(CharDigit(V(f'hd{k}'))) for k in range(known)]
         return OpenItems(items) if self.nd >= 4 else Items(items)
 
     def letter_scan(self, elem):
+        if self.pattern is not None:
+            return Items([elem(HexLetter(k)) for k in range(self.pattern.count('l'))])
         if self.nd >= 4:
             return OpenItems([])          # 16 - nd letters, nd unknown: nothing is known about them
         return OpenItems([elem(HexLetter(k)) for k in range(4)])    # at least 13 letters
@@ -125,6 +144,10 @@ class ScanEval(FoldEval):
         if len(e.generators) == 1 and not e.generators[0].is_async:
             g = e.generators[0]
             src = self.eval(g.iter, env)
+            if isinstance(src, JoinedChars):
+                src = Items(src.chars)
+            if isinstance(src, HexRaw) and not g.ifs and isinstance(g.target, ast.Name):
+                src = Items(self.all_scan())
             if isinstance(src, HexRaw):
                 if not (isinstance(g.target, ast.Name) and len(g.ifs) == 1):
                     raise Unsupported('the hex string is scanned without selecting digits or letters')
@@ -208,6 +231,14 @@ class ScanEval(FoldEval):
     def slice(self, base, lo, hi, step):
         if isinstance(base, (OpaqueVal, RawStr, HexBytes)):
             return OpaqueVal('slice')
+        if isinstance(base, JoinedChars):
+            def cst(v):
+                if v is None or isinstance(v, NoneVal):
+                    return None
+                if isinstance(v, IntVal) and is_k(v.t):
+                    return v.t[1]
+                raise Unsupported('slice bound is not a constant')
+            return JoinedChars(base.chars[slice(cst(lo), cst(hi), cst(step))])
         if isinstance(base, Items) and getattr(base, 'open', False):
             def const(v):
                 if v is None or isinstance(v, NoneVal):
@@ -226,6 +257,10 @@ class ScanEval(FoldEval):
     def binop(self, op, a, b):
         if isinstance(a, OpaqueVal) or isinstance(b, OpaqueVal):
             return OpaqueVal('binop')
+        if isinstance(op, ast.Add) and isinstance(a, (JoinedChars, StrLit)) and isinstance(b, (JoinedChars, StrLit)):
+            def chars(x):
+                return list(x.chars) if isinstance(x, JoinedChars) else [StrLit(c) for c in x.s]
+            return JoinedChars(chars(a) + chars(b))
         if isinstance(op, ast.Add) and isinstance(a, Items) and isinstance(b, Items):
             if getattr(a, 'open', False):
                 return OpenItems(a.items)          # whatever follows comes after an unknown number of elements
@@ -287,6 +322,8 @@ class ScanEval(FoldEval):
         return out
 
     def cond(self, v):
+        if isinstance(v, JoinedChars):
+            return K(int(bool(v.chars)))
         if isinstance(v, Items) and getattr(v, 'open', False):
             if v.items:
                 return K(1)
@@ -294,6 +331,10 @@ class ScanEval(FoldEval):
         return super().cond(v)
 
     def call(self, f, args, kwargs):
+        if isinstance(f, Builtin) and f.name == 'str.maketrans':
+            if len(args) == 2 and all(isinstance(a, StrLit) for a in args) and len(args[0].s) == len(args[1].s):
+                return DictLit({a: StrLit(b) for a, b in zip(args[0].s, args[1].s)})
+            raise Unsupported('str.maketrans arguments')
         if isinstance(f, Builtin) and f.name.startswith('ext:'):
             name = f.name[4:]
             if name in ('binascii.hexlify', 'binascii.b2a_hex') and len(args) == 1:
@@ -328,6 +369,28 @@ class ScanEval(FoldEval):
             return OpaqueVal(name)
         if isinstance(recv, HexRaw) and name in ('lower', 'casefold') and not args:
             return recv
+        if name == 'translate' and len(args) == 1 and isinstance(args[0], DictLit):
+            chars = self.all_scan() if isinstance(recv, HexRaw) else recv.chars if isinstance(recv, JoinedChars) else None
+            if chars is None:
+                raise Unsupported('translate')
+            out = []
+            for ch in chars:
+                if isinstance(ch, HexLetter):
+                    if set('abcdef') <= set(args[0].items):
+                        out.append(self.dict_lookup(args[0], ch))
+                    elif not set('abcdef') & set(args[0].items):
+                        out.append(ch)
+                    else:
+                        raise Unsupported('translation table covers only some letters')
+                elif isinstance(ch, CharDigit):
+                    if set('0123456789') & set(args[0].items):
+                        raise Unsupported('translation table changes decimal digits')
+                    out.append(ch)
+                else:
+                    out.append(ch)
+            return JoinedChars(out)
+        if isinstance(recv, StrLit) and name == 'join' and recv.s == '' and len(args) == 1 and isinstance(args[0], JoinedChars):
+            return args[0]
         if isinstance(recv, StrLit) and name == 'join' and recv.s == '' and len(args) == 1 and isinstance(args[0], Items):
             if getattr(args[0], 'open', False):
                 raise Unsupported('join of a scan of unknown length')
@@ -395,6 +458,8 @@ class ScanEval(FoldEval):
 
     def b_len(self, args, kw):
         v = args[0]
+        if isinstance(v, JoinedChars):
+            return IntVal(K(len(v.chars)))
         if isinstance(v, Items) and getattr(v, 'open', False):
             return LenAtLeast(len(v.items))
         if isinstance(v, HexRaw):
@@ -471,6 +536,62 @@ def _char_value(ch):
     return None
 
 
+def _try_patterns(prog, fi, reason):
+    """the order-free analysis does not apply (the hex string is used as a whole): try a few concrete digit/letter
+    patterns; a difference on one of them is a refutation, agreement on all of them proves nothing"""
+    pats = []
+    for nd in (0, 1, 2, 3, 4, 5):
+        pats += ['d' * nd + 'l' * (HEX_LEN - nd), 'l' * (HEX_LEN - nd) + 'd' * nd, ('l' + 'd') * nd + 'l' * (HEX_LEN - 2 * nd),
+                 'l' * 3 + 'd' * nd + 'l' * (HEX_LEN - 3 - nd)]
+    seen = set()
+    for pat in pats:
+        if pat in seen or len(pat) != HEX_LEN:
+            continue
+        seen.add(pat)
+        nd = pat.count('d')
+        ev = ScanEval(prog, fi.module, min(nd, 4), pattern=pat)
+        try:
+            r = ev.call_def(fi.node, [OpaqueVal(a.arg) for a in fi.node.args.args], fi.module)
+        except (Unsupported, RecursionError) as ex:
+            return Verdict('undecided', f'{reason}; pattern evaluation is outside the fragment too: {ex}')
+        if not isinstance(r, JoinedChars):
+            return Verdict('undecided', f'{reason}; the result {r!r} is not a string of scanned characters')
+        want = [('d', f'hd{k}') for k in range(min(nd, 4))] + [('a', j) for j in range(4 - min(nd, 4))]
+        letters = {j: 10 + (j % 6) for j in range(HEX_LEN)}
+
+        def render(chars):
+            out = ''
+            for ch in chars:
+                cv = _char_value(ch)
+                if cv is None:
+                    return None
+                if cv[0] == 'd':
+                    out += str((int(cv[1][2:]) + 1) % 10)
+                elif cv[0] == 'letter':
+                    out += 'abcdef'[letters[cv[1]] - 10]
+                else:
+                    fv = free_vars(cv[1])
+                    out += str(evaluate(cv[1], {x: letters[int(x[2:])] for x in fv if x.startswith('hv')}))
+            return out
+        got = render(r.chars)
+        exp = ''.join(str((int(w[1][2:]) + 1) % 10) if w[0] == 'd' else str(letters[w[1]] - 10) for w in want)
+        if got is None:
+            return Verdict('undecided', f'{reason}; a result character is not recognised')
+        if got != exp:
+            di = li = 0
+            hexs = ''
+            for c in pat:
+                if c == 'd':
+                    hexs += str((di + 1) % 10)
+                    di += 1
+                else:
+                    hexs += 'abcdef'[letters[li] - 10]
+                    li += 1
+            return Verdict('refuted', f'for the hex string {hexs!r} the closed form gives {got!r}, the decimalisation is {exp!r}',
+                           witness={'hex(ciphertext)': hexs, 'computed': got, 'expected': exp})
+    return Verdict('undecided', f'{reason} (no difference on {len(seen)} digit/letter patterns)')
+
+
 def analyse_decimalisation(prog, fi, nparams=None):
     """-> Verdict for a function whose result is the decimalised hex rendering of an opaque ciphertext"""
     cases = []
@@ -480,7 +601,7 @@ def analyse_decimalisation(prog, fi, nparams=None):
         try:
             r = ev.call_def(fi.node, args, fi.module)
         except Unsupported as ex:
-            return Verdict('undecided', f'outside the scan fragment (case {nd if nd < 4 else ">= 4"} decimal digits): {ex}')
+            return _try_patterns(prog, fi, f'outside the scan fragment (case {nd if nd < 4 else ">= 4"} decimal digits): {ex}')
         except RecursionError:
             return Verdict('undecided', 'outside the scan fragment: recursion')
         if not isinstance(r, JoinedChars):
